@@ -959,10 +959,9 @@ class Transformer:
 
                 rules = rules_map.get(policy_name)
                 if not rules:
-                    logging.error(
-                        "Zone '%s': Could not find policy '%s': "
-                        + "should not happen", zone_name, policy_name)
-                    sys.exit(1)
+                    # Nothing to mark. The zone is removed, with a reason, by
+                    # _remove_zones_without_rules().
+                    continue
 
                 # Make all Rules which overlap with the current Zone Era.
                 # Some Zone Era have an until_month, until_day and until_time
